@@ -29,6 +29,7 @@ def plan(tier, seed):
     table = data.countries()
     comp = [c for c in N.COMPUTING if c in table]
     sh = [{"kind": "compute", "countries": c, "tier": tier, "_name": f"compute-{i}"} for i, c in enumerate(gen.chunk(comp, 10 if tier == "quick" else 19))]
+    sh.append({"kind": "mixed", "countries": comp, "tier": tier, "_name": "compute-mixed"})
     withpos = [c for c in sorted(table) if data.positions(table[c])]
     sh += [{"kind": "rebuild", "countries": c, "tier": tier, "_name": f"rebuild-{i}"} for i, c in enumerate(gen.chunk(withpos, 8 if tier == "quick" else 30))]
     return sh
@@ -79,6 +80,37 @@ def run_compute(shard, mon, S, table):
         mon.sample({"country": cc, "generated": str(o.value) if o.ok else None})
 
 
+def run_mixed(shard, mon, S, table):
+    """Computing countries interleaved in one process with coinciding component strings: validate an IBAN of
+    one country, then generate + validate one of another."""
+    rng = env.rng("C09", "mixed")
+    n = 40 if shard["tier"] == "quick" else 1200
+    for k in range(n):
+        D = "".join(rng.choice(R.DIGITS) for _ in range(40))
+        order = list(shard["countries"])
+        rng.shuffle(order)
+        for cc in order:
+            spec = table[cc]
+            pos = data.positions(spec)
+            if N.LENGTHS.get(cc) != spec["bban_length"] or "account_code" not in pos:
+                continue
+            b = N.body_fill(cc, D, spec["bban_length"])
+            if not R.matches_spec(spec["bban_spec"], N.force_valid(cc, b) or ""):
+                continue
+            comp = {c: b[pos[c][0] : pos[c][1]] for c in ("bank_code", "branch_code", "account_code") if c in pos}
+            o = observe(S.IBAN.generate, cc, bank_code=comp.get("bank_code", ""), account_code=comp["account_code"], branch_code=comp.get("branch_code", ""))
+            mon.ev()
+            w = {"country": cc, "components": comp, "via": "generate-mixed", "round": k}
+            if not o.ok:
+                if not judge.is_lib_exc(o.exc):
+                    mon.viol(f"escape:generate:{o.exc_name}", w, "library error", o.brief())
+                elif N.force_valid(cc, b) is not None:
+                    mon.viol(f"generate_refused_after_other_countries:{o.exc_name}", w, "valid IBAN", o.brief())
+                continue
+            check_valid(mon, S, o.value, cc, table, w)
+    mon.tally("mixed_rounds", n)
+
+
 def check_valid(mon, S, ib, cc, table, w):
     s = str(ib)
     w = {**w, "iban": s}
@@ -118,6 +150,16 @@ def run_rebuild(shard, mon, S, table):
             if cc in N.LENGTHS:
                 b = N.force_valid(cc, b) or b
             cands.append(R.make_iban(cc, b))
+            if cc in N.CHECK_FIELD and i % 3 == 0:
+                # the same body with other check-field contents: whatever the library accepts nationally
+                # must rebuild too (a correct library accepts only the canonical digits)
+                s_, e_ = N.CHECK_FIELD[cc]
+                kcls = R.position_classes(spec["bban_spec"])[s_]
+                cur = b[s_:e_]
+                alts = [c for c in kcls] if e_ - s_ == 1 else ["00", "01", "97", "98", "99", f"{(int(cur) + 97) % 100:02d}" if cur.isdigit() else "00"]
+                for a in alts:
+                    if a != cur:
+                        cands.append(R.make_iban(cc, b[:s_] + a + b[e_:]))
         for k in range(max(4, n // 4)):
             o = observe(S.IBAN.random, cc, random=Random(f"{env.seed()}/C09r/{cc}/{k}"))
             if o.ok:
@@ -152,7 +194,7 @@ def run_shard(shard, out_base):
     mon = Mon("C09")
     S = judge.lib()
     table = data.countries()
-    (run_compute if shard["kind"] == "compute" else run_rebuild)(shard, mon, S, table)
+    {"compute": run_compute, "mixed": run_mixed, "rebuild": run_rebuild}[shard["kind"]](shard, mon, S, table)
     return mon.result(out_base)
 
 
